@@ -36,15 +36,29 @@ def feat_value(v):
     return '+'.join(fs) or 'plain'
 
 
+PRE_EVENTS_NAME = {'m': 'multi-line', 'd': 'data-block', 's': 'single-line'}
+PRE_EVENTS = {
+    None: b'',
+    'm': ctlcodec.encode_event('CONF_CHANGED', 'multi', ['', 'SocksPort=9050', 'x']),
+    'd': ctlcodec.encode_event('NS', 'data', ['', 'r a b', 'a=1']),
+    's': ctlcodec.encode_event('CIRC', 'single', ['1 BUILT']),
+}
+_PRE = [None]
+
+
 def ask(fn_name, args, parts):
-    """call proto.<fn_name>(*args), answer with the reference-encoded reply; return (kind, value, wire, errors)"""
+    """call proto.<fn_name>(*args), answer with the reference-encoded reply; return (kind, value, wire, errors).
+    If _PRE[0] is set, an asynchronous event of that form arrives between the command and its reply."""
     with World() as w:
         ctl = Ctl(w)
+        ctl.proto._set_valid_events('CONF_CHANGED NS CIRC')
         try:
             d = getattr(ctl.proto, fn_name)(*args)
         except Exception as e:
             return ('raised', repr(e), ctl.wire.value(), [])
         rec = DRec(d)
+        if _PRE[0] is not None:
+            ctl.deliver(PRE_EVENTS[_PRE[0]])
         ctl.deliver(ctlcodec.encode_reply(250, parts))
         errs = w.errors()
         wire = ctl.wire.value()
@@ -173,11 +187,27 @@ _MIN = {}
 
 def run_params(p):
     viol = []
+    _PRE[0] = p.get('pre')
+    try:
+        return _run_params(p, viol)
+    finally:
+        _PRE[0] = None
+
+
+_LAST_OC = [None]
+
+
+def _run_params(p, viol):
     if p['kind'] == 'info':
         values = [tuple(v) if isinstance(v, (list, tuple)) else v for v in p['values']]
-        check_getinfo(list(p['keys']), values, p['single'], viol)
+        _LAST_OC[0] = check_getinfo(list(p['keys']), values, p['single'], viol)
     else:
-        check_getconf(p['key'], p['values'], p['single'], p['spelling'], viol)
+        _LAST_OC[0] = check_getconf(p['key'], p['values'], p['single'], p['spelling'], viol)
+    pre = p.get('pre')
+    if pre:
+        for i, v in enumerate(viol):
+            viol[i] = (v[0], v[1] + '/after-%s-event' % PRE_EVENTS_NAME[pre],
+                       v[2] + ' [a %s 650 event arrived before the reply]' % PRE_EVENTS_NAME[pre])
     return viol
 
 
@@ -248,10 +278,11 @@ def run_task(param, acc):
         ks = param[1]
         vs = CRIT if len(ks) == 2 else CRIT_SMALL
         for values in itertools.product(vs, repeat=len(ks)):
-            viol = []
-            oc = check_getinfo(list(ks), list(values), False, viol)
-            rec(acc, ('multi', ks, values), oc, viol, dict(kind='info', keys=list(ks), values=list(values), single=False),
-                cost=100 * len(ks) + sum(len(v) for v in values))
+            for pre in ((None, 'm', 'd') if len(ks) == 2 else (None,)):
+                viol = run_params(dict(kind='info', keys=list(ks), values=list(values), single=False, pre=pre))
+                oc = _LAST_OC[0]
+                rec(acc, ('multi', ks, values, pre), oc, viol, dict(kind='info', keys=list(ks), values=list(values), single=False, pre=pre),
+                    cost=100 * len(ks) + sum(len(v) for v in values) + (5 if pre else 0))
         acc.sample(dict(call='get_info', keys=list(ks), values=list(values)), limit=1)
     elif param[0] == 'ml':
         first = param[1]
@@ -272,11 +303,12 @@ def run_task(param, acc):
                 cases += [list(t) for t in itertools.product(CONF_VALUES, repeat=n)]
             for values in cases:
                 for single in (False, True):
-                    viol = []
-                    oc = check_getconf(key, values, single, spelling, viol)
-                    rec(acc, ('conf', key, tuple(values) if values is not None else None, single), oc, viol,
-                        dict(kind='conf', key=key, values=values, single=single, spelling=spelling),
-                        cost=(0 if values is None else 10 * len(values) + sum(len(v) for v in values)))
+                    for pre in ((None, 'm', 'd', 's') if (values is None or len(values) <= 2) else (None,)):
+                        viol = run_params(dict(kind='conf', key=key, values=values, single=single, spelling=spelling, pre=pre))
+                        oc = _LAST_OC[0]
+                        rec(acc, ('conf', key, tuple(values) if values is not None else None, single, pre), oc, viol,
+                            dict(kind='conf', key=key, values=values, single=single, spelling=spelling, pre=pre),
+                            cost=(0 if values is None else 10 * len(values) + sum(len(v) for v in values)) + (5 if pre else 0))
         acc.sample(dict(call='get_conf_single', key=key, values=values), limit=1)
 
 
